@@ -7,6 +7,7 @@ import (
 	"encoding/json"
 	"fmt"
 	"regexp"
+	"sort"
 	"strconv"
 	"strings"
 	"time"
@@ -51,7 +52,14 @@ func (rd *c13Renderer) entries(v *c13Val) []c13Entry {
 // c13Quote writes s as a double-quoted literal that is valid, with the same
 // meaning, in YAML, TOML and Cue: short escapes for quote, backslash, \n, \t,
 // \r; \u00XX for other controls; non-ASCII either raw or \uXXXX.
-func c13Quote(s string, r *fw.Rand) string {
+func c13Quote(s string, r *fw.Rand) string { return c13QuoteOpt(s, r, false) }
+
+// c13QuoteValue is c13Quote for string VALUES: now and then a plain ASCII
+// character is written as \uXXXX too. (Not for keys: go-toml does not decode
+// escapes in the quoted parts of a table header.)
+func c13QuoteValue(s string, r *fw.Rand) string { return c13QuoteOpt(s, r, true) }
+
+func c13QuoteOpt(s string, r *fw.Rand, asciiEsc bool) string {
 	var b strings.Builder
 	b.WriteByte('"')
 	for _, c := range s {
@@ -69,7 +77,13 @@ func c13Quote(s string, r *fw.Rand) string {
 		case c < 0x20 || c == 0x7f:
 			fmt.Fprintf(&b, `\u%04x`, c)
 		case c < 0x80:
-			b.WriteRune(c)
+			// now and then a plain ASCII character as \uXXXX: the same
+			// string in YAML, TOML and Cue double-quoted literals
+			if asciiEsc && r != nil && r.Chance(4) {
+				fmt.Fprintf(&b, `\u%04x`, c)
+			} else {
+				b.WriteRune(c)
+			}
 		case c < 0xa0 || c == 0x2028 || c == 0x2029 || c == 0xfeff || c == 0xfffe || c == 0xffff:
 			fmt.Fprintf(&b, `\u%04x`, c)
 		case c < 0x10000 && r != nil && r.Chance(30):
@@ -126,7 +140,7 @@ func (rd *c13Renderer) str(s string, flow bool) string {
 			return `#"` + s + `"#`
 		}
 	}
-	return c13Quote(s, r)
+	return c13QuoteValue(s, r)
 }
 
 // key renders a struct key (letters, digits, '_' and '-' only) or a data map key.
@@ -279,7 +293,9 @@ func (rd *c13Renderer) jsonTree(v *c13Val) any {
 		return json.Number(strconv.FormatUint(v.u, 10))
 	case c13Float:
 		return json.Number(v.ftext)
-	case c13String, c13Time, c13IP, c13Text:
+	case c13Time:
+		return c13NoEscStr(v.s)
+	case c13String, c13IP, c13Text:
 		return v.s
 	case c13Duration:
 		if v.durNS && (rd.fm == c13JSON || rd.fm == c13Cue) {
@@ -314,19 +330,170 @@ func (rd *c13Renderer) jsonTree(v *c13Val) any {
 	panic("c13: jsonTree")
 }
 
+// JSON string modes. encoding/json never writes an escape it does not have
+// to, so documents it produces contain no \uXXXX for printable characters;
+// other encoders do (ASCII-only output is the default of several), and a
+// JSON string means the same whatever escapes spell it.
+const (
+	c13JSONStd   = iota // encoding/json's own marshaller
+	c13JSONASCII        // every non-ASCII character escaped (surrogate pairs above the BMP)
+	c13JSONMixed        // any character, plain ASCII included, may be written as an escape
+)
+
+// c13NoEscStr is a string leaf of the generic tree that is always written
+// without optional escapes: time.Time's own UnmarshalJSON (Go standard
+// library) strips the quotes by hand and never decodes escapes, so an RFC 3339
+// string spelled with \uXXXX is not the same data to encoding/json.
+type c13NoEscStr string
+
+// c13JSONString writes s as a JSON string literal in the given mode.
+func c13JSONString(b *strings.Builder, s string, mode int, r *fw.Rand) {
+	hex := func(c rune) {
+		if r.Bool() {
+			fmt.Fprintf(b, `\u%04x`, c)
+		} else {
+			fmt.Fprintf(b, `\u%04X`, c)
+		}
+	}
+	esc := func(c rune) {
+		if c >= 0x10000 {
+			c -= 0x10000
+			hex(0xd800 + (c>>10)&0x3ff)
+			hex(0xdc00 + c&0x3ff)
+			return
+		}
+		hex(c)
+	}
+	b.WriteByte('"')
+	for _, c := range s {
+		short := ""
+		switch c {
+		case '"':
+			short = `\"`
+		case '\\':
+			short = `\\`
+		case '\n':
+			short = `\n`
+		case '\t':
+			short = `\t`
+		case '\r':
+			short = `\r`
+		case '\b':
+			short = `\b`
+		case '\f':
+			short = `\f`
+		}
+		switch {
+		case short != "":
+			if mode == c13JSONMixed && r.Chance(40) {
+				esc(c)
+			} else {
+				b.WriteString(short)
+			}
+		case c < 0x20:
+			esc(c)
+		case c == '/' && mode == c13JSONMixed && r.Chance(40):
+			b.WriteString(`\/`)
+		case c >= 0x80 && mode == c13JSONASCII:
+			esc(c)
+		case mode == c13JSONMixed && r.Chance(20):
+			esc(c)
+		default:
+			b.WriteRune(c)
+		}
+	}
+	b.WriteByte('"')
+}
+
+// jsonWrite writes the generic tree with the harness's own JSON writer.
+func (rd *c13Renderer) jsonWrite(b *strings.Builder, v any, mode int, indent bool, level int) {
+	nl := func(l int) {
+		if indent {
+			b.WriteByte('\n')
+			for k := 0; k < l; k++ {
+				b.WriteString("  ")
+			}
+		}
+	}
+	switch x := v.(type) {
+	case bool:
+		b.WriteString(strconv.FormatBool(x))
+	case json.Number:
+		b.WriteString(string(x))
+	case string:
+		c13JSONString(b, x, mode, rd.r)
+	case c13NoEscStr:
+		c13JSONString(b, string(x), c13JSONStd, rd.r)
+	case []any:
+		if len(x) == 0 {
+			b.WriteString("[]")
+			return
+		}
+		b.WriteByte('[')
+		for k, e := range x {
+			if k > 0 {
+				b.WriteByte(',')
+			}
+			nl(level + 1)
+			rd.jsonWrite(b, e, mode, indent, level+1)
+		}
+		nl(level)
+		b.WriteByte(']')
+	case map[string]any:
+		if len(x) == 0 {
+			b.WriteString("{}")
+			return
+		}
+		keys := make([]string, 0, len(x))
+		for k := range x {
+			keys = append(keys, k)
+		}
+		sort.Strings(keys)
+		p := rd.r.Perm(len(keys))
+		b.WriteByte('{')
+		for k, pi := range p {
+			if k > 0 {
+				b.WriteByte(',')
+			}
+			nl(level + 1)
+			c13JSONString(b, keys[pi], mode, rd.r)
+			b.WriteByte(':')
+			if indent {
+				b.WriteByte(' ')
+			}
+			rd.jsonWrite(b, x[keys[pi]], mode, indent, level+1)
+		}
+		nl(level)
+		b.WriteByte('}')
+	default:
+		panic(fmt.Sprintf("c13: jsonWrite: unexpected %T", v))
+	}
+}
+
 func (rd *c13Renderer) renderJSON(top *c13Val) string {
 	tree := rd.jsonTree(top)
-	var b []byte
-	var err error
-	if rd.r.Bool() {
-		b, err = json.MarshalIndent(tree, "", "  ")
-	} else {
-		b, err = json.Marshal(tree)
+	switch x := rd.r.Intn(100); {
+	case x < 40:
+		var b []byte
+		var err error
+		if rd.r.Bool() {
+			b, err = json.MarshalIndent(tree, "", "  ")
+		} else {
+			b, err = json.Marshal(tree)
+		}
+		if err != nil {
+			panic("c13: json render: " + err.Error())
+		}
+		return string(b)
+	case x < 65:
+		var b strings.Builder
+		rd.jsonWrite(&b, tree, c13JSONASCII, rd.r.Bool(), 0)
+		return b.String()
+	default:
+		var b strings.Builder
+		rd.jsonWrite(&b, tree, c13JSONMixed, rd.r.Bool(), 0)
+		return b.String()
 	}
-	if err != nil {
-		panic("c13: json render: " + err.Error())
-	}
-	return string(b)
 }
 
 // ---------------------------------------------------------------------------
